@@ -70,6 +70,11 @@ func collectFields(reqCtx *OperationContext, selSet ast.SelectionSet, satisfies 
 
 		case *ast.FragmentSpread:
 			fragmentName := sel.Name
+			// @skip / @include are evaluated before the spread counts as visited: a spread
+			// that is excluded must not suppress a later, included spread of the same fragment.
+			if !shouldIncludeNode(sel.Directives, reqCtx.Variables) {
+				continue
+			}
 			if _, seen := visited[fragmentName]; seen {
 				continue
 			}
@@ -85,9 +90,6 @@ func collectFields(reqCtx *OperationContext, selSet ast.SelectionSet, satisfies 
 				continue
 			}
 
-			if !shouldIncludeNode(sel.Directives, reqCtx.Variables) {
-				continue
-			}
 			shouldDefer, label := deferrable(sel.Directives, reqCtx.Variables)
 
 			for _, childField := range collectFields(reqCtx, fragment.SelectionSet, satisfies, visited) {
